@@ -224,6 +224,7 @@ async def run_history(loop, case, out, stats, trace):
             return may, must
 
         local_before: set = set()
+        forced: list = []  # hand-over pattern: (op, consumer) queued after a reject
         for step in range(case["nops"]):
             started = [c for c in consumers if c["started"]]
             held = [m for m in model.values() if m.place == "held"]
@@ -238,6 +239,12 @@ async def run_history(loop, case, out, stats, trace):
             if held:
                 choices += ["ack", "nack", "reject", "requeue"] * 2
             op = rnd.choice(choices)
+            pick = None
+            while forced:
+                fop, fc = forced.pop(0)
+                if fc["started"]:
+                    op, pick = fop, fc
+                    break
             ctx = op
             stats["ops"] += 1
             stats["op_" + op] += 1
@@ -293,7 +300,7 @@ async def run_history(loop, case, out, stats, trace):
                 trace.append(("start", cons._rv_label, q, cat, tp, mu))
                 await settle(loop, rig)
             elif op == "finish":
-                c = rnd.choice(started)
+                c = pick or rnd.choice(started)
                 alone = not any(o is not c and o["started"] and o["queue"] == c["queue"] for o in consumers)
                 local_before = local_ids(c["obj"]) if alone else set()
                 await asyncio.wait_for(c["obj"].finish(), 30)
@@ -311,9 +318,9 @@ async def run_history(loop, case, out, stats, trace):
                             if phys in (("waiting",), ("delayed",), ("dead",)):
                                 stats["finish_returned_handed_out"] += 1
             elif op == "consume":
-                c = rnd.choice(started)
+                c = pick or rnd.choice(started)
                 may, must = may_must(c)
-                if not may and rnd.random() < 0.6:
+                if not may and rnd.random() < 0.6 and pick is None:
                     continue
                 timeout = 6.0 if must else (1.2 if not may else 3.0)
                 ctx = f"consume/{c['cat']}"
@@ -375,6 +382,13 @@ async def run_history(loop, case, out, stats, trace):
                 elif op == "reject":
                     await mb.reject(m.key)
                     m.place = "dead" if m.taken_from == "DEAD" else "queued"
+                    prev = m.holder
+                    rivals = [o for o in consumers if o is not prev and o["started"] and o["queue"] == m.queue and o["cat"] == m.taken_from
+                              and (o["topics"] is None or m.topic in o["topics"])]
+                    if rivals and prev["started"] and rnd.random() < 0.5:
+                        # a rival takes what was just given back, then the previous holder shuts down
+                        forced = [("consume", rnd.choice(rivals)), ("finish", prev)]
+                        stats["handover_patterns"] += 1
                 else:
                     p = mk_params(conn, rnd, now(), tried=m.params["tried"] + 1)
                     m.payload = m.payload + "+"
@@ -438,7 +452,13 @@ async def run_history(loop, case, out, stats, trace):
                         out.append(V("duplicated", kind, "audit", f"acknowledged {id_} came out of the drain: {g}"))
                     continue
                 if len(g) != 1:
-                    out.append(V("lost" if not g else "duplicated", kind, "audit", f"{id_} (model {m.place}, due {m.due}) came out {len(g)} times: {g}"))
+                    phys = tuple(rig.snapshot().get(id_, ()))
+                    if not g and phys == ("held",) and kind != "mem":
+                        # still marked in flight after the drain: one of the drain's own timed-out consume() calls (or the
+                        # finish() of its consumer) took it and dropped it - the cancellation findings, not a new loss
+                        out.append(V("stuck_after_cancel", kind, "consume", f"audit: {id_} (model {m.place}, due {m.due}) never came out of the drain and is still marked in flight"))
+                        continue
+                    out.append(V("lost" if not g else "duplicated", kind, "audit", f"{id_} (model {m.place}, due {m.due}) came out {len(g)} times: {g}; physical place {phys}"))
                     continue
                 cat, payload, ps = g[0]
                 exp_cat = "DEAD" if m.place == "dead" else None
